@@ -175,11 +175,19 @@ func ValidateRedirect(sigAlg string, elementToSign []byte, signature []byte, pub
 		sum := sha1Sum(elementToSign)
 		return verifyDSA(signature, sum, pubKey)
 	case "http://www.w3.org/2000/09/xmldsig#rsa-sha1":
+		rsaKey, ok := pubKey.(*rsa.PublicKey)
+		if !ok {
+			return fmt.Errorf("signature algorithm %s requires an RSA key", sigAlg)
+		}
 		sum := sha1Sum(elementToSign)
-		return rsa.VerifyPKCS1v15(pubKey.(*rsa.PublicKey), crypto.SHA1, sum, signature)
+		return rsa.VerifyPKCS1v15(rsaKey, crypto.SHA1, sum, signature)
 	case "http://www.w3.org/2001/04/xmldsig-more#rsa-sha256":
+		rsaKey, ok := pubKey.(*rsa.PublicKey)
+		if !ok {
+			return fmt.Errorf("signature algorithm %s requires an RSA key", sigAlg)
+		}
 		sum := sha256Sum(elementToSign)
-		return rsa.VerifyPKCS1v15(pubKey.(*rsa.PublicKey), crypto.SHA256, sum, signature)
+		return rsa.VerifyPKCS1v15(rsaKey, crypto.SHA256, sum, signature)
 	default:
 		return fmt.Errorf("unsupported signature algorithm, %s", sigAlg)
 	}
@@ -199,7 +207,11 @@ func verifyDSA(signature, sum []byte, pubKey interface{}) error {
 	if dsaSig.R.Sign() <= 0 || dsaSig.S.Sign() <= 0 {
 		return fmt.Errorf("DSA signature contained zero or negative values")
 	}
-	if !dsa.Verify(pubKey.(*dsa.PublicKey), sum, dsaSig.R, dsaSig.S) {
+	dsaKey, ok := pubKey.(*dsa.PublicKey)
+	if !ok {
+		return fmt.Errorf("DSA signature algorithm requires a DSA key")
+	}
+	if !dsa.Verify(dsaKey, sum, dsaSig.R, dsaSig.S) {
 		return fmt.Errorf("DSA verification failure")
 	}
 	return nil
